@@ -181,7 +181,114 @@ func c07WriteSizes(mode string, frag int, rng *rand.Rand) func() int {
 	}
 }
 
+// c07OutagePoller: the real handshake with the client's own poll loop; a fragment is accepted by Write at the
+// start of a total outage (the Write itself may fail after its retries, but it counts the fragment), then
+// nobody but the client's own poller talks while sc.K further exchanges are lost; after the path recovers
+// the accepted fragment must arrive and the connection must still be usable.
+func c07OutagePoller(rec *vcommon.Rec, sc *c07Scenario) {
+	rec.Mark(sc)
+	s, err := c07Setup(sc)
+	if err != nil {
+		rec.Violation("setup:"+sc.Script, sc, err.Error())
+		return
+	}
+	defer func() { s.comm.Close(); s.scomm.Close() }()
+	var outage int32
+	var lost int64
+	s.comm.SetScript(func(n int64, q *mdns.Msg) (vFate, int) {
+		if atomic.LoadInt32(&outage) != 0 {
+			atomic.AddInt64(&lost, 1)
+			return vQueryLost, 0
+		}
+		return vDelivered, 0
+	})
+	key := uint64(sc.Seed)*2 + 1
+	// reader on the server side
+	var read int64
+	var rerr atomic.Value
+	go func() {
+		buf := make([]byte, 4096)
+		for {
+			n, err := s.user.Read(buf)
+			if n > 0 {
+				if bad := vcommon.CheckKeyed(key, atomic.LoadInt64(&read), buf[:n]); bad >= 0 {
+					rerr.Store(fmt.Sprintf("mismatch at %d", atomic.LoadInt64(&read)+int64(bad)))
+					return
+				}
+				atomic.AddInt64(&read, int64(n))
+			}
+			if err != nil {
+				return
+			}
+		}
+	}()
+	write := func(off int64, n int) (int, error) {
+		buf := make([]byte, n)
+		vcommon.FillKeyed(key, off, buf)
+		return s.client.Write(buf)
+	}
+	var accepted int64
+	// 1. the path works
+	n, err := write(0, 300)
+	accepted += int64(n)
+	if err != nil {
+		rec.Violation("full:outage-poller:write-error-on-a-working-path", sc, err.Error())
+		return
+	}
+	// 2. the outage begins; one more fragment is handed to Write
+	atomic.StoreInt32(&outage, 1)
+	n, werr := write(accepted, 100)
+	accepted += int64(n)
+	// 3. only the client's own poller talks; wait (wall clock, the poller sleeps between its rounds) until the
+	//    outage has swallowed sc.K exchanges
+	deadline := time.Now().Add(120 * time.Second)
+	for atomic.LoadInt64(&lost) < int64(sc.K) && time.Now().Before(deadline) && !s.client.Closed() {
+		time.Sleep(50 * time.Millisecond)
+	}
+	lostN := atomic.LoadInt64(&lost)
+	closedDuringOutage := s.client.Closed()
+	// 4. the path recovers; the client's poller (or, failing that, 200 polls by the harness) must deliver the rest
+	atomic.StoreInt32(&outage, 0)
+	for i := 0; i < 200 && atomic.LoadInt64(&read) < accepted; i++ {
+		s.client.SendAndReceive(s.client.out.NextChunk())
+		time.Sleep(10 * time.Millisecond)
+	}
+	rec.Case(sc.Name, true)
+	rec.Stat("outage_poller_exchanges_lost", lostN)
+	rec.Seen("script", sc.Script)
+	rec.Sample(map[string]interface{}{"scenario": sc, "lost_exchanges": lostN, "accepted": accepted, "read": atomic.LoadInt64(&read), "write_error_during_outage": fmt.Sprint(werr)})
+	info := map[string]interface{}{"accepted": accepted, "read_by_peer": atomic.LoadInt64(&read), "lost_exchanges": lostN,
+		"client_closed_itself_during_outage": closedDuringOutage, "write_error_during_outage": fmt.Sprint(werr)}
+	if v := rerr.Load(); v != nil {
+		info["reader"] = v
+		rec.Violation("full:outage-poller:stream-not-a-prefix", sc, info)
+		return
+	}
+	if atomic.LoadInt64(&read) < accepted {
+		rec.Violation("full:outage-poller:accepted-bytes-not-delivered-after-faults-stop", sc, info)
+		return
+	}
+	// the connection must still carry data
+	n, err = write(accepted, 200)
+	accepted += int64(n)
+	for i := 0; i < 200 && atomic.LoadInt64(&read) < accepted; i++ {
+		s.client.SendAndReceive(s.client.out.NextChunk())
+		time.Sleep(5 * time.Millisecond)
+	}
+	if err != nil || atomic.LoadInt64(&read) < accepted {
+		info["after_recovery_write_error"] = fmt.Sprint(err)
+		info["read_by_peer"] = atomic.LoadInt64(&read)
+		rec.Violation("full:outage-poller:connection-unusable-after-recovery", sc, info)
+		return
+	}
+	rec.Stat("bytes_verified_c2s", atomic.LoadInt64(&read))
+}
+
 func c07Run(rec *vcommon.Rec, sc *c07Scenario) {
+	if sc.Script == "outage-poller" {
+		c07OutagePoller(rec, sc)
+		return
+	}
 	rec.Mark(sc)
 	s, err := c07Setup(sc)
 	if err != nil {
@@ -229,6 +336,12 @@ func c07Run(rec *vcommon.Rec, sc *c07Scenario) {
 			return f, 0
 		}
 		switch sc.Script {
+		case "outage":
+			// a total outage of sc.K consecutive exchanges (every query lost), starting at exchange sc.LagMin
+			if n >= int64(sc.LagMin) && n < int64(sc.LagMin+sc.K) {
+				return vQueryLost, 0
+			}
+			return vDelivered, 0
 		case "exact":
 			// the exchange that carries one particular packet gets one particular fate (the sequence
 			// number is read from the request itself / from the head of the server's queue: no estimate)
@@ -586,6 +699,18 @@ func c07Scenarios(rec *vcommon.Rec) []*c07Scenario {
 	add(c07Scenario{Script: "random", PLostQ: 0.03, PLostA: 0.03, PDup: 0.03, Up: "Base64u", Down: "Raw", QType: uint16(util.QueryTypeNull), UpFrag: 90, DownFrag: 1000, BytesC2S: 300000, BytesS2C: 1500000, WriteMode: "mixed"})
 	add(c07Scenario{Script: "random", Full: true, PLostQ: 0.02, PLostA: 0.02, PDup: 0.02, BytesC2S: 300000, BytesS2C: 600000, WriteMode: "mixed"})
 	add(c07Scenario{Script: "transparent", Full: true, UpFrag: 5, DownFrag: 5, BytesC2S: 20000 * 5, BytesS2C: 20000 * 5})
+	// 6b. a long total outage (longer than any retry ladder) and then recovery: with the real handshake and the
+	// client's own poll loop; Write errors may surface during the outage, but the connection must survive it and
+	// everything accepted must arrive afterwards
+	for _, l := range []int{40, 120, 400} {
+		add(c07Scenario{Script: "outage", Full: true, K: l, LagMin: 150, MaxBurst: l, BytesC2S: 60000, BytesS2C: 60000, WriteMode: "mixed"})
+		add(c07Scenario{Script: "outage", Full: false, K: l, LagMin: 60, MaxBurst: l, UpFrag: 40, DownFrag: 40, BytesC2S: 30000, BytesS2C: 30000})
+	}
+	// 6c. the same with nobody but the client's own poll loop talking during the outage (wall-clock paced: the
+	// poller sleeps between its rounds), for outages of 20, 45 and 90 lost exchanges
+	for _, l := range []int{20, 45, 90} {
+		add(c07Scenario{Script: "outage-poller", Full: true, K: l, MaxBurst: l})
+	}
 	// 7. one particular packet next to the 16-bit wrap gets one particular fate, in either direction
 	for _, dir := range []string{"c2s", "s2c"} {
 		for _, fate := range []string{"answer-lost", "query-dup", "query-lost"} {
